@@ -60,7 +60,7 @@ Proof.
   destruct (brun (mkCfg 2 false false) empty_bstate ghost_witness) as [b rs] eqn:E.
   destruct H as [H1 [H2 _]]. split.
   - destruct rs as [|r1 [|r2 [|r3 [|r4 [|r5 [|]]]]]]; try discriminate. cbn in *. congruence.
-  - cbn. rewrite H2. cbn. intuition discriminate.
+  - change (~ In 0 (map ikey (b_inorder b))). rewrite H2. cbn. intuition discriminate.
 Qed.
 Print Assumptions C18_find_any_refuted.
 
@@ -87,7 +87,7 @@ Proof.
   destruct (brun (mkCfg 4 false false) empty_bstate foreign_witness) as [b rs] eqn:E.
   destruct H as [H1 H2]. split.
   - destruct rs as [|r1 [|r2 [|r3 [|]]]]; try discriminate. cbn in *. congruence.
-  - cbn. rewrite H2. cbn. discriminate.
+  - change (ikey (bcurrent_key b) <> 1). rewrite H2. cbn. discriminate.
 Qed.
 Print Assumptions C18_find_with_id_refuted.
 
